@@ -619,6 +619,9 @@ func cmpC18(c hx.Case, impl any, reply map[string]any) hx.Verdict {
 		return v
 	}
 	if !jbool(im, "ok") {
+		if os.Getenv("C18DEBUG") == "2" && strings.Contains(hx.Canon(reply["excl"]), "Dangling") {
+			fmt.Fprintln(os.Stderr, "C18DEBUG DANGLING:", jstr(im, "err"), "CASE", hx.Canon(c))
+		}
 		v.IS = false
 		v.Detail = "property fails: " + jstr(im, "err") + "; value " + hx.Canon(im["enc"]) + "; schema " + hx.Canon(im["schema"]) + "; components " + hx.Canon(im["comps"])
 	}
@@ -652,8 +655,9 @@ func cmpC18(c hx.Case, impl any, reply map[string]any) hx.Verdict {
 	if jbool(match, "resolves") != jbool(im, "load") {
 		fail(fmt.Sprintf("references resolve: impl load=%v (%s), model %v", jbool(im, "load"), jstr(im, "err"), jbool(match, "resolves")))
 	}
-	if jbool(im, "load") && jbool(match, "accept") != jbool(im, "accept") {
-		fail(fmt.Sprintf("verdict: impl accept=%v (%s), model accept=%v", jbool(im, "accept"), jstr(im, "err"), jbool(match, "accept")))
+	// "acceptImpl": the model's verdict with the validator's int64 format as built (it cannot reject, see Drv/C18.lean)
+	if jbool(im, "load") && jbool(match, "acceptImpl") != jbool(im, "accept") {
+		fail(fmt.Sprintf("verdict: impl accept=%v (%s), model accept=%v (exact %v)", jbool(im, "accept"), jstr(im, "err"), jbool(match, "acceptImpl"), jbool(match, "accept")))
 	}
 	return v
 }
